@@ -157,9 +157,25 @@ func ruleSeqhash(c *Ctx, prop string) {
 	typeEvaluable := true
 	{
 		tb0 := newTB(h)
+		tb0.NoInline = true
 		eachInstr(h, func(i ssa.Instruction) {
 			if ifi, ok := i.(*ssa.If); ok {
 				t := tb0.T(ifi.Cond)
+				// a test on the result of a helper that was given a mode input (type / flags): the valuation cannot
+				// follow the helper, so which edge is taken for a given mode is not known
+				if t.contains(func(x *Term) bool {
+					if x.Op != "call" || strings.HasPrefix(x.Name, "strings.") || strings.HasPrefix(x.Name, "builtin:") {
+						return false
+					}
+					for _, a := range x.Args {
+						if a.contains(func(y *Term) bool { return y.isParam(1) || y.isParam(2) || y.isParam(3) }) {
+							return true
+						}
+					}
+					return false
+				}) {
+					typeEvaluable = false
+				}
 				if t.contains(func(x *Term) bool { return x.isParam(1) }) {
 					if !((t.isBin("==") || t.isBin("!=")) && (t.Args[0].Op == "const" || t.Args[1].Op == "const")) {
 						typeEvaluable = false
